@@ -423,6 +423,7 @@ def do_commute(hybrid_op_a, hybrid_op_b, term_resolved=False):
             )
 
     if not term_resolved:
-        return not np.all(term_bool)
+        # The operators commute only if none of the terms of a anticommutes with a term of b (OR reduction over a_i)
+        return not np.any(term_bool)
     else:
         return np.logical_not(term_bool)
